@@ -30,6 +30,8 @@ ROOTS = {"Expression": (p.Expression, ()),
 
 _CACHE = {}
 _THIS = sys.modules[__name__]
+# values that __post_init__ of generated classes stores in their init=False fields
+NOINIT_VALUES = {}
 
 
 def _cls_name(spec, i):
@@ -57,8 +59,35 @@ def make_hierarchy(spec):
                 ns["mapper_method"] = lvl["mapper_method"]
             if lvl["kind"] == "D":
                 ns["__annotations__"] = {f: "ExpressionT" for f in new}
-                cls = type(name, (base,), ns)
-                cls = p.expr_dataclass()(cls)
+                noinit = tuple(lvl.get("noinit", ()))
+                if noinit:
+                    # fields computed in __post_init__ (init=False), e.g. a serial number:
+                    # they are fields like any other for equality and hashing
+                    import dataclasses
+                    for f in noinit:
+                        ns["__annotations__"][f] = "int"
+                        ns[f] = dataclasses.field(init=False)
+
+                    def __post_init__(self, _noinit=noinit):
+                        for f in _noinit:
+                            object.__setattr__(self, f, NOINIT_VALUES.get(f, 0))
+                    ns["__post_init__"] = __post_init__
+                if lvl.get("init") is False:
+                    # @expr_dataclass(init=False) with a hand-written constructor
+                    def __init__(self, *args, _allf=allf):
+                        if len(args) != len(_allf):
+                            raise TypeError("wrong number of arguments")
+                        for f, v in zip(_allf, args):
+                            object.__setattr__(self, f, v)
+                        post = getattr(self, "__post_init__", None)
+                        if post is not None:
+                            post()
+                    ns["__init__"] = __init__
+                    cls = type(name, (base,), ns)
+                    cls = p.expr_dataclass(init=False)(cls)
+                else:
+                    cls = type(name, (base,), ns)
+                    cls = p.expr_dataclass()(cls)
             elif lvl["kind"] == "B":
                 # behaviour-only subclass: undecorated, no fields, no __init__ of its
                 # own (e.g. class FieldVariable(Variable): mapper_method = ...)
@@ -97,7 +126,9 @@ def _legacy_class(name, base, base_fields, new, ns):
     ns["__init__"] = __init__
     ns["__getinitargs__"] = __getinitargs__
     ns["init_arg_names"] = allf
-    if "mapper_method" not in ns and not base_is_dc:
+    if ns.get("mapper_method") == "<none>":
+        del ns["mapper_method"]     # an old-style class that never declared a handler name
+    elif "mapper_method" not in ns and not base_is_dc:
         ns["mapper_method"] = "map_" + name.lower()
     return type(name, (base,), ns)
 
